@@ -151,7 +151,7 @@ def unit_cache() -> Dict[str, Any]:
 
 HIST = r'''
 import sys, json, random, tempfile, hashlib, io, contextlib, importlib
-sys.path[:0] = ['/verif', '/repo']
+sys.path[:0] = ['/verif', __import__('os').environ.get('VERIF_REPO', '/repo')]
 from pathlib import Path
 flipjump = importlib.import_module('flipjump')
 C = importlib.import_module('flipjump.fjm.fjm_consts')
@@ -199,7 +199,7 @@ def bounded(rep: Report, tier: str, seed: int) -> None:
     rng = random.Random(seed + 77)
     n = 10 if tier != 'thorough' else 120
     evals, distinct = 0, set()
-    env = dict(os.environ, PYTHONPATH='/verif:/repo', PYTHONDONTWRITEBYTECODE='1')
+    env = dict(os.environ, PYTHONPATH='/verif:' + os.environ.get('VERIF_REPO', '/repo'), PYTHONDONTWRITEBYTECODE='1')
     with tempfile.TemporaryDirectory() as d1, tempfile.TemporaryDirectory() as d2:
         for it in range(n):
             hist = []
